@@ -5,12 +5,18 @@ package c09
 
 import (
 	"fmt"
+	"strings"
 
 	"github.com/tuneinsight/lattigo/v6/circuits/bgv/lintrans"
 	bgvpoly "github.com/tuneinsight/lattigo/v6/circuits/bgv/polynomial"
 	cklt "github.com/tuneinsight/lattigo/v6/circuits/ckks/lintrans"
 	ckpoly "github.com/tuneinsight/lattigo/v6/circuits/ckks/polynomial"
+	clt "github.com/tuneinsight/lattigo/v6/circuits/common/lintrans"
+	cpoly "github.com/tuneinsight/lattigo/v6/circuits/common/polynomial"
 	"github.com/tuneinsight/lattigo/v6/core/rlwe"
+	"github.com/tuneinsight/lattigo/v6/ring"
+	"github.com/tuneinsight/lattigo/v6/ring/ringqp"
+	"github.com/tuneinsight/lattigo/v6/schemes"
 	"github.com/tuneinsight/lattigo/v6/schemes/bgv"
 	"github.com/tuneinsight/lattigo/v6/schemes/ckks"
 	"github.com/tuneinsight/lattigo/v6/utils/bignum"
@@ -82,7 +88,9 @@ func runCKKSLinTrans(c *eng.Ctx, cfg pcfg, kind string) {
 		{"lintrans.Evaluator.Evaluate", urow[*ckks.Evaluator]{outDeg: same1, call: func(ev *ckks.Evaluator, in, out *rlwe.Ciphertext) error {
 			return cklt.NewEvaluator(ev).Evaluate(in, lt0, out)
 		}}},
-		{"lintrans.Evaluator.EvaluateSequential", urow[*ckks.Evaluator]{outDeg: same1, outLvl: func(l int) int { return l - 2 }, call: func(ev *ckks.Evaluator, in, out *rlwe.Ciphertext) error {
+		// (the level of the output object bounds the level every step works at: the fresh output is allocated
+		// at the level of the input, the result lands two levels below)
+		{"lintrans.Evaluator.EvaluateSequential", urow[*ckks.Evaluator]{outDeg: same1, call: func(ev *ckks.Evaluator, in, out *rlwe.Ciphertext) error {
 			return cklt.NewEvaluator(ev).EvaluateSequential(in, []cklt.LinearTransformation{lt0, lt1}, out)
 		}}},
 	}
@@ -99,6 +107,32 @@ func runCKKSLinTrans(c *eng.Ctx, cfg pcfg, kind string) {
 	// EvaluateMany with two transformations: out[0] aliased with the input
 	runEvalMany(t, s, "lintrans.Evaluator.EvaluateMany", kind, e.ct(L, "", 1), func(ev *ckks.Evaluator, in *rlwe.Ciphertext, outs []*rlwe.Ciphertext) error {
 		return cklt.NewEvaluator(ev).EvaluateMany(in, []cklt.LinearTransformation{lt0, lt1}, outs)
+	})
+	as := func(ev *ckks.Evaluator) schemes.Evaluator { return ev }
+	for _, lvl := range []int{L, L - 1} {
+		runDiagDirect(t, s, fmt.Sprintf("%s/lvl%d", kind, lvl), p.Parameters, e.ct(lvl, "", 1), clt.LinearTransformation(lt0), e.evk, as)
+	}
+	lts := []cklt.LinearTransformation{lt0, lt1}
+	runLTNew(t, s, kind, e.ct(L, "", 1), ltNewFuncs[*ckks.Evaluator]{
+		evalNew: func(ev *ckks.Evaluator, in *rlwe.Ciphertext) (*rlwe.Ciphertext, error) {
+			return cklt.NewEvaluator(ev).EvaluateNew(in, lt0)
+		},
+		eval: func(ev *ckks.Evaluator, in, out *rlwe.Ciphertext) error {
+			return cklt.NewEvaluator(ev).Evaluate(in, lt0, out)
+		},
+		manyNew: func(ev *ckks.Evaluator, in *rlwe.Ciphertext) ([]*rlwe.Ciphertext, error) {
+			return cklt.NewEvaluator(ev).EvaluateManyNew(in, lts)
+		},
+		many: func(ev *ckks.Evaluator, in *rlwe.Ciphertext, outs []*rlwe.Ciphertext) error {
+			return cklt.NewEvaluator(ev).EvaluateMany(in, lts, outs)
+		},
+		seqNew: func(ev *ckks.Evaluator, in *rlwe.Ciphertext) (*rlwe.Ciphertext, error) {
+			return cklt.NewEvaluator(ev).EvaluateSequentialNew(in, lts)
+		},
+		seq: func(ev *ckks.Evaluator, in, out *rlwe.Ciphertext) error {
+			return cklt.NewEvaluator(ev).EvaluateSequential(in, lts, out)
+		},
+		lvl0: lt0.LevelQ, lvl1: lt1.LevelQ, extra: func() []named { return extra },
 	})
 }
 
@@ -130,6 +164,38 @@ func runEvalMany[E any](t *T, s *scheme[E], api, kind string, a *rlwe.Ciphertext
 		}
 		t.same(api, "alias-"+pat+"|out[0]", "", api+" "+pat, r0, canonCt(s.rq, x0))
 		t.same(api, "alias-"+pat+"|out[1]", "", api+" "+pat, r1, canonCt(s.rq, x1))
+	}
+	// history: used evaluator (poisoned buffers, ShallowCopy / WithKey of a used one), reused output objects
+	for _, pat := range append([]string{"hist-out", "hist-out/mixed"}, histPats...) {
+		ev, ok := evalFor(t, s, pat)
+		if !ok {
+			continue
+		}
+		t.distinct(api, pat, "ct", kind, true)
+		a2 := copyCt(a)
+		x0, x1 := s.newCt(1, a.Level()), s.newCt(1, a.Level())
+		switch pat {
+		case "hist-out":
+			x0, x1 = s.dirty(t.c.Rand(), 2), s.dirty(t.c.Rand(), 2)
+		case "hist-out/mixed":
+			x1 = s.dirty(t.c.Rand(), 1)
+		}
+		o := protect(func() error { return call(ev, a2, []*rlwe.Ciphertext{x0, x1}) })
+		cl := patClass(strings.TrimSuffix(pat, "/mixed"))
+		if o.panicked {
+			t.c.Violate("C09|"+api+"|"+cl+"|panic", fmt.Sprintf("%s %s [%s]: panic (the run with a clean evaluator and fresh outputs is accepted): %v at %s", api, pat, t.tag, o.pval, o.stack), nil)
+			continue
+		}
+		if o.err != nil {
+			if strings.HasPrefix(pat, "hist-out") {
+				t.c.Count("dirty_out_rejected_by_error", 1)
+			} else {
+				t.c.Violate("C09|"+api+"|"+cl+"|error", fmt.Sprintf("%s %s [%s]: error (the run with a clean evaluator and fresh outputs is accepted): %v", api, pat, t.tag, o.err), nil)
+			}
+			continue
+		}
+		t.same(api, cl+"|out[0]", "", api+" "+pat+" "+kind, r0, canonCt(s.rq, x0))
+		t.same(api, cl+"|out[1]", "", api+" "+pat+" "+kind, r1, canonCt(s.rq, x1))
 	}
 }
 
@@ -171,7 +237,7 @@ func runBGVLinTrans(c *eng.Ctx, cfg pcfg, kind string) {
 		{"lintrans.Evaluator.Evaluate", urow[*bgv.Evaluator]{outDeg: same1, call: func(ev *bgv.Evaluator, in, out *rlwe.Ciphertext) error {
 			return lintrans.NewEvaluator(ev).Evaluate(in, lt0, out)
 		}}},
-		{"lintrans.Evaluator.EvaluateSequential", urow[*bgv.Evaluator]{outDeg: same1, outLvl: func(l int) int { return l - 2 }, call: func(ev *bgv.Evaluator, in, out *rlwe.Ciphertext) error {
+		{"lintrans.Evaluator.EvaluateSequential", urow[*bgv.Evaluator]{outDeg: same1, call: func(ev *bgv.Evaluator, in, out *rlwe.Ciphertext) error {
 			return lintrans.NewEvaluator(ev).EvaluateSequential(in, []lintrans.LinearTransformation{lt0, lt1}, out)
 		}}},
 	}
@@ -187,6 +253,32 @@ func runBGVLinTrans(c *eng.Ctx, cfg pcfg, kind string) {
 	}
 	runEvalMany(t, s, "lintrans.Evaluator.EvaluateMany", kind, e.ct(L, 1, 1), func(ev *bgv.Evaluator, in *rlwe.Ciphertext, outs []*rlwe.Ciphertext) error {
 		return lintrans.NewEvaluator(ev).EvaluateMany(in, []lintrans.LinearTransformation{lt0, lt1}, outs)
+	})
+	as := func(ev *bgv.Evaluator) schemes.Evaluator { return ev }
+	for _, lvl := range []int{L, L - 1} {
+		runDiagDirect(t, s, fmt.Sprintf("%s/lvl%d", kind, lvl), p.Parameters, e.ct(lvl, 3, 1), clt.LinearTransformation(lt0), e.evk, as)
+	}
+	lts := []lintrans.LinearTransformation{lt0, lt1}
+	runLTNew(t, s, kind, e.ct(L, 3, 1), ltNewFuncs[*bgv.Evaluator]{
+		evalNew: func(ev *bgv.Evaluator, in *rlwe.Ciphertext) (*rlwe.Ciphertext, error) {
+			return lintrans.NewEvaluator(ev).EvaluateNew(in, lt0)
+		},
+		eval: func(ev *bgv.Evaluator, in, out *rlwe.Ciphertext) error {
+			return lintrans.NewEvaluator(ev).Evaluate(in, lt0, out)
+		},
+		manyNew: func(ev *bgv.Evaluator, in *rlwe.Ciphertext) ([]*rlwe.Ciphertext, error) {
+			return lintrans.NewEvaluator(ev).EvaluateManyNew(in, lts)
+		},
+		many: func(ev *bgv.Evaluator, in *rlwe.Ciphertext, outs []*rlwe.Ciphertext) error {
+			return lintrans.NewEvaluator(ev).EvaluateMany(in, lts, outs)
+		},
+		seqNew: func(ev *bgv.Evaluator, in *rlwe.Ciphertext) (*rlwe.Ciphertext, error) {
+			return lintrans.NewEvaluator(ev).EvaluateSequentialNew(in, lts)
+		},
+		seq: func(ev *bgv.Evaluator, in, out *rlwe.Ciphertext) error {
+			return lintrans.NewEvaluator(ev).EvaluateSequential(in, lts, out)
+		},
+		lvl0: lt0.LevelQ, lvl1: lt1.LevelQ, extra: func() []named { return extra },
 	})
 }
 
@@ -260,6 +352,37 @@ func runCKKSPoly(c *eng.Ctx, cfg pcfg) {
 			func(ev *ckks.Evaluator, in *rlwe.Ciphertext) (*rlwe.Ciphertext, error) {
 				return ckpoly.NewEvaluator(p, ev).Evaluate(in, poly, p.DefaultScale())
 			})
+		// the same evaluation from a power basis: X^1 and the polynomial are inputs (the basis caches the higher
+		// powers by design); a basis that was used before gives the result of a new one
+		t.runPatterns("polynomial.Evaluator.EvaluateFromPowerBasis", "ckks/"+v.name, "", []string{"ct-vs-powerbasis", "hist-repeat", "hist-poison1", "hist-derived-shallowcopy"}, func(pat string) ([]named, func() (string, error)) {
+			ev, ok := evalFor(t, s, strings.NewReplacer("ct-vs-powerbasis", "fresh", "hist-repeat", "fresh").Replace(pat))
+			if !ok {
+				return nil, nil
+			}
+			pe := ckpoly.NewEvaluator(p, ev)
+			if pat == "ct-vs-powerbasis" {
+				return nil, func() (string, error) {
+					o, err := pe.Evaluate(copyCt(a), poly, p.DefaultScale())
+					if err != nil {
+						return "", err
+					}
+					return ctString(s.rq, o), nil
+				}
+			}
+			pb := cpoly.NewPowerBasis(copyCt(a), v.basis)
+			if pat == "hist-repeat" {
+				if _, err := pe.EvaluateFromPowerBasis(pb, poly, p.DefaultScale()); err != nil {
+					return nil, nil
+				}
+			}
+			return []named{{"polynomial", &poly}, {"X^1", pb.Value[1]}, {"evk", e.evk}}, func() (string, error) {
+				o, err := pe.EvaluateFromPowerBasis(pb, poly, p.DefaultScale())
+				if err != nil {
+					return "", err
+				}
+				return ctString(s.rq, o), nil
+			}
+		})
 	}
 	// one polynomial evaluator reused for polynomial vectors with different slot mappings: the second result
 	// must be the one a fresh polynomial evaluator gives (no residue of the first mapping in its buffers)
@@ -321,6 +444,35 @@ func runBGVPoly(c *eng.Ctx, cfg pcfg) {
 			func(ev *bgv.Evaluator, in *rlwe.Ciphertext) (*rlwe.Ciphertext, error) {
 				return bgvpoly.NewEvaluator(p, ev).Evaluate(in, poly, p.DefaultScale())
 			})
+		t.runPatterns("polynomial.Evaluator.EvaluateFromPowerBasis", s.name+"/"+v.name, "", []string{"ct-vs-powerbasis", "hist-repeat", "hist-poison1", "hist-derived-shallowcopy"}, func(pat string) ([]named, func() (string, error)) {
+			ev, ok := evalFor(t, s, strings.NewReplacer("ct-vs-powerbasis", "fresh", "hist-repeat", "fresh").Replace(pat))
+			if !ok {
+				return nil, nil
+			}
+			pe := bgvpoly.NewEvaluator(p, ev)
+			if pat == "ct-vs-powerbasis" {
+				return nil, func() (string, error) {
+					o, err := pe.Evaluate(copyCt(a), poly, p.DefaultScale())
+					if err != nil {
+						return "", err
+					}
+					return ctString(s.rq, o), nil
+				}
+			}
+			pb := cpoly.NewPowerBasis(copyCt(a), bignum.Monomial)
+			if pat == "hist-repeat" {
+				if _, err := pe.EvaluateFromPowerBasis(pb, poly, p.DefaultScale()); err != nil {
+					return nil, nil
+				}
+			}
+			return []named{{"polynomial", &poly}, {"X^1", pb.Value[1]}, {"evk", e.evk}}, func() (string, error) {
+				o, err := pe.EvaluateFromPowerBasis(pb, poly, p.DefaultScale())
+				if err != nil {
+					return "", err
+				}
+				return ctString(s.rq, o), nil
+			}
+		})
 	}
 	{
 		api, variant := "polynomial.Evaluator.Evaluate", s.name+"/vector-after-vector"
@@ -352,4 +504,149 @@ func runBGVPoly(c *eng.Ctx, cfg pcfg) {
 			}
 		}
 	}
+}
+
+// ---------------------------------------------------------------------------------------------
+// Direct calls of MultiplyByDiagMatrix / MultiplyByDiagMatrixBSGS with caller-owned decomposition
+// buffer resp. pre-rotated ciphertexts (both are arguments: intact after the call), and the allocating
+// front-end variants (EvaluateNew, EvaluateManyNew, EvaluateSequentialNew).
+
+func runDiagDirect[E any](t *T, s *scheme[E], kind string, p rlwe.Parameters, a *rlwe.Ciphertext, lt clt.LinearTransformation, evk rlwe.EvaluationKeySet, asEval func(E) schemes.Evaluator) {
+	rnd := t.c.Rand()
+	bsgs := lt.N1 != 0
+	api := "lintrans.Evaluator.MultiplyByDiagMatrix"
+	if bsgs {
+		api += "BSGS"
+	}
+	levelP := lt.LevelP
+	for _, low := range []int{0, 1} {
+		runDiagDirectAt(t, s, api, kind, p, a, lt, evk, asEval, bsgs, min(a.Level(), lt.LevelQ)-low, levelP, low == 1, rnd)
+	}
+}
+
+// runDiagDirectAt: the output object has level levelQ (low: one level below the input and the matrix: the
+// level of the output object bounds the level of the result; reference = fresh output of that level).
+func runDiagDirectAt[E any](t *T, s *scheme[E], api, kind string, p rlwe.Parameters, a *rlwe.Ciphertext, lt clt.LinearTransformation, evk rlwe.EvaluationKeySet, asEval func(E) schemes.Evaluator, bsgs bool, levelQ, levelP int, low bool, rnd *eng.Rand) {
+	if levelQ < 0 {
+		return
+	}
+	pats := append([]string{"out=in", "hist-out"}, histPats...)
+	if low {
+		kind += "/out-low"
+		pats = []string{"hist-out"}
+	}
+	t.runPatterns(api, kind, "", pats, func(pat string) ([]named, func() (string, error)) {
+		ev, ok := evalFor(t, s, pat)
+		if !ok {
+			return nil, nil
+		}
+		lev := clt.Evaluator{Evaluator: asEval(ev)}
+		in := copyCt(a)
+		out := s.newCt(1, levelQ)
+		switch pat {
+		case "out=in":
+			out = in
+		case "hist-out":
+			out = dirtyLow(s, rnd, 2, levelQ)
+			if !low {
+				out = s.dirty(rnd, 2)
+			}
+		}
+		// the decomposition of the input is computed by a clean evaluator into a caller-owned buffer
+		dec := newDecompBuffer(p)
+		clean := s.newEval()
+		asEval(clean).(interface {
+			DecomposeNTT(levelQ, levelP, nbPi int, c2 ring.Poly, c2IsNTT bool, decompQP []ringqp.Poly)
+		}).DecomposeNTT(levelQ, levelP, levelP+1, in.Value[1], in.IsNTT, dec)
+		ins := []named{{"matrix", &lt}, {"evk", evk}}
+		if out != in {
+			ins = append(ins, named{"ctIn", in})
+		}
+		if !bsgs {
+			ins = append(ins, named{"BuffDecompQP", &dec})
+			return ins, func() (string, error) {
+				err := lev.MultiplyByDiagMatrix(in, lt, dec, out)
+				return ctString(s.rq, out), err
+			}
+		}
+		_, _, rotN2 := lt.BSGSIndex()
+		pre := map[int]*rlwe.Element[ringqp.Poly]{}
+		if err := (clt.Evaluator{Evaluator: asEval(clean)}).PreRotatedCiphertextForDiagonalMatrixMultiplication(levelQ, levelP, in, dec, rotN2, pre); err != nil {
+			return nil, nil
+		}
+		ins = append(ins, named{"ctInPreRot", &pre})
+		return ins, func() (string, error) {
+			err := lev.MultiplyByDiagMatrixBSGS(in, lt, pre, out)
+			return ctString(s.rq, out), err
+		}
+	})
+}
+
+type ltNewFuncs[E any] struct {
+	evalNew       func(ev E, in *rlwe.Ciphertext) (*rlwe.Ciphertext, error)
+	eval          func(ev E, in, out *rlwe.Ciphertext) error
+	manyNew       func(ev E, in *rlwe.Ciphertext) ([]*rlwe.Ciphertext, error)
+	many          func(ev E, in *rlwe.Ciphertext, outs []*rlwe.Ciphertext) error
+	seqNew        func(ev E, in *rlwe.Ciphertext) (*rlwe.Ciphertext, error)
+	seq           func(ev E, in, out *rlwe.Ciphertext) error
+	lvl0, lvl1    int // LevelQ of the two transformations
+	extra         func() []named
+	seqFreshLevel int
+}
+
+func runLTNew[E any](t *T, s *scheme[E], kind string, a *rlwe.Ciphertext, f ltNewFuncs[E]) {
+	in := func() *rlwe.Ciphertext { return copyCt(a) }
+	ins := func(x *rlwe.Ciphertext) []named { return append(f.extra(), named{"ctIn", x}) }
+	t.runPatterns("lintrans.Evaluator.EvaluateNew", kind, "", []string{"new-vs-inplace", "hist-poison1"}, func(pat string) ([]named, func() (string, error)) {
+		ev, _ := evalFor(t, s, strings.Replace(pat, "new-vs-inplace", "fresh", 1))
+		x := in()
+		if pat == "new-vs-inplace" {
+			out := s.newCt(1, f.lvl0)
+			return nil, func() (string, error) { err := f.eval(ev, x, out); return ctString(s.rq, out), err }
+		}
+		return ins(x), func() (string, error) {
+			o, err := f.evalNew(ev, x)
+			if err != nil {
+				return "", err
+			}
+			return ctString(s.rq, o), nil
+		}
+	})
+	t.runPatterns("lintrans.Evaluator.EvaluateManyNew", kind, "", []string{"new-vs-inplace", "hist-poison1"}, func(pat string) ([]named, func() (string, error)) {
+		ev, _ := evalFor(t, s, strings.Replace(pat, "new-vs-inplace", "fresh", 1))
+		x := in()
+		str := func(o []*rlwe.Ciphertext) string {
+			r := ""
+			for i := range o {
+				r += ctString(s.rq, o[i]) + "|"
+			}
+			return r
+		}
+		if pat == "new-vs-inplace" {
+			outs := []*rlwe.Ciphertext{s.newCt(1, f.lvl0), s.newCt(1, f.lvl1)}
+			return nil, func() (string, error) { err := f.many(ev, x, outs); return str(outs), err }
+		}
+		return ins(x), func() (string, error) {
+			o, err := f.manyNew(ev, x)
+			if err != nil {
+				return "", err
+			}
+			return str(o), nil
+		}
+	})
+	t.runPatterns("lintrans.Evaluator.EvaluateSequentialNew", kind, "", []string{"new-vs-inplace", "hist-poison1"}, func(pat string) ([]named, func() (string, error)) {
+		ev, _ := evalFor(t, s, strings.Replace(pat, "new-vs-inplace", "fresh", 1))
+		x := in()
+		if pat == "new-vs-inplace" {
+			out := s.newCt(1, f.lvl0)
+			return nil, func() (string, error) { err := f.seq(ev, x, out); return ctString(s.rq, out), err }
+		}
+		return ins(x), func() (string, error) {
+			o, err := f.seqNew(ev, x)
+			if err != nil {
+				return "", err
+			}
+			return ctString(s.rq, o), nil
+		}
+	})
 }
